@@ -7,7 +7,9 @@
     configuration => the very same output object, no second job, one launch;
 (b) several launchers start the same real job script concurrently (lock protocol of `aio_start`/`aio_run`
     reproduced): task-side log => bodies never overlap, none after success; the observed order is replayed on the
-    Lean process model (Drive/C11.lean), which must predict who ran the body.
+    Lean process model (Drive/C11.lean), which must predict who ran the body;
+(c) two or three real schedulers (experiment processes) submit the same job on one workspace; the identity (inode) of
+    the job's run lock file is watched: the model's "one lock = one file".
 """
 import json
 import os
@@ -25,7 +27,9 @@ RULE = ("(a) random workloads (<= 7 jobs, <= 2 tokens; 40 % of the jobs re-submi
         "non-trivial = the workload contains a duplicate identifier or a marker and the schedule has >= 2 out-of-FIFO deliveries; "
         "(a') submission histories (<= 9 submissions of <= 4 task graphs, permuted rebuilds, failing-first jobs, waits) on a real experiment with an "
         "instant launcher; non-trivial = some configuration submitted again; (b) 2-3 launchers racing for one real job script "
-        "(seeded start offsets, optional first failure); distinct = hash of the case")
+        "(seeded start offsets, optional first failure); (c) 2-3 real experiment processes (different experiment names, one workspace) submit the same task "
+        "configuration within 0-0.3 s, scheduler-side start slowed through a public Listener or not, or forced (the later ones queue on the job lock while the first "
+        "starts the job); monitors: bodies never overlap, none after success, every experiment ends DONE, the lock file stays one inode; distinct = hash of the case")
 
 
 def _nontrivial(spec, ev):
@@ -257,12 +261,80 @@ def race_part(ctx):
         raise RuntimeError(f"{errs}/{len(outs)} race cases could not be run: {next(o['error'] for o in outs if o.get('error'))}")
 
 
+# ------------------------------------------------------------------------------------ (c) two real schedulers, one job
+
+
+def twosched_cases(ctx, rng):
+    cases = []
+    if ctx.quick():
+        specs = [("forced", 2, None), ("free", 2, 1), ("free", 3, None)]
+    else:
+        specs = [("forced", 2, None), ("forced", 3, None), ("forced", 2, None)]
+        for n in (2, 3):
+            for slow in (None, 0, 1):
+                for _ in range(3):
+                    specs.append(("free", n, slow))
+    for i, (mode, n, slow) in enumerate(specs):
+        offs = [0.0] + [round(rng.choice([0.0, 0.05, 0.1, 0.2, 0.3]), 2) for _ in range(n - 1)]
+        cases.append({"id": f"twosched{i}", "n": n, "mode": mode, "x": 100 + i,
+                      "offsets": [0.0] * n if mode == "forced" else offs,
+                      "slow": [rng.choice([0.4, 0.7, 1.0]) if slow == k else 0.0 for k in range(n)],
+                      "hold": 3.0 if mode == "forced" else 1.0, "max_slow": 6.0})
+    return cases
+
+
+def twosched_monitor(case, o):
+    """(key, what): third sentence of the property on n real schedulers that submit one job on one workspace"""
+    fails = []
+    if o.get("error"):
+        return fails
+    tag = f"{case['n']} experiment processes submit one job on one workspace ({case['mode']}, offsets {case['offsets']}, slow start {case['slow']})"
+    ivs = sorted((iv for ivs in o["intervals"].values() for iv in ivs), key=lambda iv: iv[1])
+    for a in range(len(ivs)):
+        for b in range(a + 1, len(ivs)):
+            ea = ivs[a][2] if ivs[a][2] is not None else float("inf")
+            if ivs[b][1] < ea:
+                fails.append(("bodies-overlap:two-schedulers", f"{tag}: the bodies of processes {ivs[a][0]} and {ivs[b][0]} overlap ({len(ivs)} executions)"))
+    succ = [iv for iv in ivs if iv[3] == "end"]
+    if len(succ) > 1 or (succ and any(iv[1] > min(x[2] for x in succ) for iv in ivs)):
+        fails.append(("body-run-again-after-success:two-schedulers", f"{tag}: {len(ivs)} executions of the body, {len(succ)} successful"))
+    for k, f in enumerate(o.get("finals") or []):
+        if f is None or f.get("error") or f.get("state") != "DONE":
+            fails.append(("scheduler-did-not-end-done:two-schedulers", f"{tag}: experiment {k} ended with {f} (rc {o.get('rcs')}; {o.get('err', '')[-200:]})"))
+            break
+    ino = o.get("lock_inodes") or []
+    if len(ino) > 1 or (ino and ino[0] is None):
+        fails.append(("lock-file-replaced", f"{tag}: the run lock file of the job did not stay one file: identities seen {ino[:6]} (None = absent)"))
+    return fails
+
+
+def twosched_part(ctx):
+    cases = twosched_cases(ctx, ctx.rng)
+    outs = run_worker_cases(ctx, "twosched", cases, parallel=ctx.scale(6, 8))
+    errs = 0
+    for case, o in zip(cases, outs):
+        if o.get("error"):
+            errs += 1
+            ctx.count("twosched_errors", o["error"][:60])
+            continue
+        ctx.case({"twosched": case, "log": [l[:3] for l in o["log"]], "lock_inodes": len(o.get("lock_inodes") or [])}, True)
+        ctx.count("twosched_mode", case["mode"])
+        ctx.count("twosched_schedulers", case["n"])
+        ctx.count("twosched_bodies_run", sum(len(v) for v in o["intervals"].values()))
+        for key, what in twosched_monitor(case, o):
+            ctx.monitor_fail(key, what, {"twosched": case})
+        ctx.traces_validated += 1
+    if errs > len(cases) // 3:
+        raise RuntimeError(f"{errs}/{len(cases)} two-scheduler cases could not be run: {next(o['error'] for o in outs if o.get('error'))}")
+
+
 def correspond(ctx):
     ctx.assumptions += ["mutual exclusion of the run lock and its release on process death are properties of flock (trusted; sampled by the races)",
                         "the real-API histories use an instant launcher (no job process): they exercise submit(), the registry and aio_submit, not run.py"]
     _sched.run(ctx, PROP, GEN, RULE, 1500, 25000, focus={"C05"}, nontrivial_fn=_nontrivial)
     api_part(ctx)
     race_part(ctx)
+    twosched_part(ctx)
     ctx.rule = RULE
 
 
@@ -285,6 +357,13 @@ def replay(ctx, obj):
             o = run_worker_cases(ctx, "race", [c["race"]], parallel=1)[0]
             fails = race_monitor(c["race"], o)
             print("replay race:", fails[:2] if fails else "no failure on this tree")
+            if fails:
+                rc = 1
+                print(f"VIOLATION property={PROP} replay=(replayed)")
+        elif "twosched" in c:
+            o = run_worker_cases(ctx, "twosched", [c["twosched"]], parallel=1)[0]
+            fails = twosched_monitor(c["twosched"], o)
+            print("replay two schedulers:", fails[:2] if fails else "no failure on this tree")
             if fails:
                 rc = 1
                 print(f"VIOLATION property={PROP} replay=(replayed)")
